@@ -19,10 +19,19 @@ def routing_jobs(tier):
              "_obligation": "O2", "_covers": ["configured"], "map_order": True, "unwind": 24} for r in (0, 1)]
 
 
+from props import C20 as _c20
+
+
+def nac_jobs(tier):
+    return [{"id": f"O3.nac-restart.calls{n}", "func": "VerifH_C14_NACRestart", "conf": {"calls": n, "branchable": 0, "faults": 0, "dag": "", "orders": "all", "shortid": 0, "for": "C14"},
+             "_obligation": "O3", "_covers": ["restarted"], "unwind": 60} for n in ((1, 2) if tier == "quick" else (1, 2, 3, 4))]
+
+
 PROPERTY = {
     "id": "C14",
     "suites": [{"name": "sequence", "pkg": "internal/db/sequence", "files": ["zz_verif_c14.go"], "common": ["intrinsics", "kvmodel"], "jobs": jobs},
-               dict(_c15.PROPERTY["suites"][0], name="routing", jobs=routing_jobs)],
+               dict(_c15.PROPERTY["suites"][0], name="routing", jobs=routing_jobs),
+               dict(_c20.SAVE_SUITE, name="nac", jobs=nac_jobs, redirects=_c20.API_REDIR, files=_c20.SAVE_FILES + ["zz_verif_c20api.go", "zz_verif_c10api.go", "zz_verif_c14nac.go"], common=["intrinsics", "kvmodel", "dagenv", "kvtxn"])],
     "bounds": {"replicator routing (O2)": "2 replicators, 2 collections, 2 (thorough 3) configuration steps, then a restart (new server, loadAndPublishReplicators) or none", "stored counter": "any uint64 < 2^63 or absent", "Next calls before restart": "<= 3", "Next calls after restart": "1..3"},
     "assumptions": ["the system store behaves like the documented corekv contract (kvmodel)", "restart = a new Sequence object over the same store content"],
     "outside_claim": ["everything else in the statement: descriptions, indexes, schema, p2p collection subscriptions are rebuilt from GraphQL/JSON/CBOR state; crash points inside badger"],
